@@ -275,6 +275,8 @@ theorem findFirst_spec (s : BSt) (l : List Nat) :
         cases hi
         have e := (same_ctxEmpty s x).th x
         rw [e.buf]
+        simp only [Bool.and_eq_true] at h2
+        replace h2 := h2.1
         unfold ctxEmpty at h2
         simp only [Bool.and_eq_true, List.isEmpty_iff] at h2
         exact h2.2
